@@ -105,6 +105,10 @@ class Dev:
             st.finish(True)
         elif mode == "fail":
             st.finish(False)
+        elif mode == "fail-noexc":
+            # implementation-only probes: a legal Status that ends done / not successful with exception() -> None
+            st.finish(False)
+            st._exc = None
         return st
 
     def __repr__(self):
